@@ -15,7 +15,7 @@ def sessCode : Sess → Nat
 
 def opOf : String → R UseOp
   | "unary" => pure .unary | "openOk" => pure .openOk | "openFail" => pure .openFail | "step" => pure .step
-  | "endOk" => pure .endOk | "endDirty" => pure .endDirty | "sendFail" => pure .sendFail
+  | "endOk" => pure .endOk | "endDirty" => pure .endDirty | "sendFail" => pure .sendFail | "interrupt" => pure .interrupt
   | s => throw s!"bad use op {s}"
 
 /-- harness events → model labels -/
@@ -54,10 +54,12 @@ def labelOf (j : Json) : R Label := do
     match (← rawStr k) with
     | "ret" => pure (.ret (← nat a) (← nat b) (← bool c) (← bool d))
     | s => throw s!"bad event {s}/4"
-  | [k, a, b, c, d, e] =>
+  | [k, a, b, c, d, e, f] =>
     match (← rawStr k) with
-    | "use" => pure (.use (← nat a) (← opOf (← rawStr b)) { opened := ← bool c, leaked := ← bool d, sess := ← sessOf (← nat e) })
-    | s => throw s!"bad event {s}/5"
+    | "use" =>
+      pure (.use (← nat a) (← opOf (← rawStr b))
+        { opened := ← bool c, leaked := ← bool d, sess := ← sessOf (← nat e), interrupted := ← bool f })
+    | s => throw s!"bad event {s}/6"
   | _ => throw "bad event"
 
 def cfgOf (a : Json) : R Cfg := do
@@ -83,6 +85,7 @@ def handle (fn : String) (a : Json) : R Json := do
     pure (obj [("evictCmp", Json.str (cmpName Gen.Pool.evictCmp)), ("reapCmp", Json.str (cmpName Gen.Pool.reapCmp)),
       ("olderCmp", Json.str (cmpName Gen.Pool.olderCmp)), ("zeroDiscards", ofBool Gen.Pool.zeroDiscards),
       ("ruleDrained", ofBool Gen.Pool.ruleDrained), ("trackLeak", ofBool Gen.Pool.trackLeak),
+      ("trackInterrupt", ofBool Gen.Pool.trackInterrupt),
       ("shape", ofBool (Gen.Pool.shapeBorrow && Gen.Pool.shapeReturn && Gen.Pool.shapeEvict && Gen.Pool.shapeReap
         && Gen.Pool.shapeClose && Gen.Pool.shapeLocking && Gen.Pool.shapePooled && Gen.Pool.shapeClient)),
       ("fingerprint", Json.str Gen.Pool.fingerprint)])
